@@ -18,6 +18,7 @@ PLAN = [
     ("exp_driver", "plain", ()),
     ("tbl_driver", "asan", ()),
     ("ts_driver", "asan", ()),
+    ("wr_driver", "plain", ()),
 ]
 
 
